@@ -26,6 +26,26 @@ CLAIMED = {
   text="Per key object the counters are proved to be the number of seals / acceptances and every seal / open to use nonce(counter): BLE EncryptionKey/DecryptionKey (__init__, encrypt, decrypt), CoAP EncryptionContext (encrypt, decrypt, decrypt_event), IP SecureHomeKitProtocol (__init__, send_bytes, data_received via the frame specs). A failed open leaves the counter unchanged. CoAP _decrypt_response is under contract and FAILS two clauses (recorded open findings: counter rewind accepts replays; zeroing reuses nonce 0).",
   note="Ideal AEAD with seal injective in the nonce. Not yet under contract: the BLE/IP 'close the connection on any failed or cancelled request' sites and the BLE key-install site (so cross-call freshness on BLE relies on them). Open findings are listed in KNOWN_FINDINGS.json and matched by failing exit, so other violations of the same clauses are still reported.",
   ref="4/C06"),
+ "C08": dict(
+  text="Futures live in a ghost heap (state/value arrays, references of any number): _cancel_pending_requests, connection_lost and eof_received are proved (loop invariant over result_cbs of ANY length) to leave no request outstanding - every pending future done with a disconnection error, done ones untouched; data_received to complete exactly a FIFO prefix of the queue and never let an EVENT consume a request; _handle_timeout to fail only its own pending request; _send_lines, with the await modelled as an interference point (result / timer / disconnect / cancellation, queue and heap havocked), to enqueue + arm the 30 s timer + write in one atomic segment, return only its own future's value, close the transport on EVERY failure after the write, turn a timeout into a disconnection error and cancel the timer unless it fired; request() to send only under the semaphore and to refuse with a disconnection error when the protocol is gone at entry or was lost while waiting.",
+  note="asyncio objects are assumed contracts (DESIGN 3.2): callbacks atomic, a timer fires its callback, close() leads to connection_lost. HttpResponse.parse enters as 'returns the unconsumed rest' (C07). Wall-clock promptness of the 30 s timer is not decided. Bounded stand-in (labelled): all action sequences of length <= 4 over issue/answer/event/cancel/timeout/peer-close/step with two concurrent callers on the real protocol object.",
+  ref="4/C08"),
+ "C09": dict(
+  text="HomeKitConnection.request is proved to hand the protocol, in ONE call, exactly utf8(METHOD SP target SP HTTP/1.1 CRLF Host-header CRLF [Name: value CRLF]* CRLF) + body for symbolic targets, header values and bodies; get/put/post to call it with no headers / exactly Content-Length (= len(body)) then Content-Type in that order; hkjson.dump_bytes to return exactly the result of one orjson.dumps call on the unchanged value without the indent option and never another encoder's output.",
+  note="str/bytes as sequences, str.encode an uninterpreted homomorphism-free symbol (terms compared structurally), str(int) = itoa symbol. orjson's compactness is an assumed contract with a labelled ground check on random nested values. Not yet under contract: the Host header construction in _connect_once and the pairing-level URL/payload builders (so the seeded 'stale Host header after reconnect' change is NOT detected yet).",
+  ref="4/C09"),
+ "C10": dict(
+  text="_reconnect is proved with a loop contract: invariant 0.5 <= interval <= 60, lock held, no stale wait future; a per-iteration step clause proved for ONE ARBITRARY iteration: exactly one attempt, then either one interruptible sleep of min(60, 1.5 x previous) >= 0.75 s or - only after a wrong pairing id that newly excluded an address while another is still eligible - an immediate next attempt; the loop is left only by success, AuthenticationError, closing, or cancellation (every other exception class of an attempt is caught). Guards proved over all states: _start_connector creates a task exactly when none is running and the connection is down; reconnect_soon ends a running wait or starts the connector; ensure_connection awaits shield(connector) and never cancels it; _get_connect_hosts is never empty, never drops an eligible address and forgets exclusions when all are excluded; the host-change block keeps exclusions for a reordered but equal address set and clears them for a changed set; IpPairing._ensure_connected waits under a 10 s timeout and translates errors; a zeroconf update never reconnects after shutdown.",
+  note="Address lists are representative concrete lists of 1..3 hosts (the code is parametric in the strings); _connect_once enters by its outcome classes. Time itself is not modelled: 'always followed by further attempts' is reduced to control flow (every failed attempt leads back to the loop head through a sleep <= 60 s); floats are treated as reals.",
+  ref="4/C10"),
+ "C11": dict(
+  text="Ghost set `open` (transports created and not closed). Proved: _drop_transport closes and forgets the held transport in every object state incl. the secure subclass during pair-verify; post_tlv closes the transport on an HTTP error; SecureHomeKitConnection._connect_once leaves NO open transport on ANY exceptional exit (every exception class of pair-verify, peer close, HTTP error, cancellation at each step) and holds exactly the new one on success; protocol.connection_lost tells the owner only when the lost transport is the one it holds (loss of an abandoned connection is harmless); _connection_lost drops and restarts unless closing; close() returns normally and leaves nothing open for EVERY state of the connector task (none, running, finished normally, finished with any exception). Three defects found by these obligations were repaired (fix commits b979fbf, f6a4836, bb8c75d).",
+  note="The base _connect_once (socket + create_connection) enters by an assumed contract; asyncio transports are stubs. Bounded native harness (labelled): scripted histories per pair-verify failure class with an independent accessory, counting connections open at the same time and after close().",
+  ref="4/C11"),
+ "C12": dict(
+  text="_callback_listeners: every listener called exactly once with the event, also after others raised, nothing escapes (0..3 listeners, each raising or not); connection_made(secure): every listener hears the empty event, then ALL recorded subscriptions are requested again, nothing on the plain connection; subscribe: the intent is recorded before the first suspension point and a cut-off subscription request switches to the documented polling fallback; _update_subscriptions: for 1..4 characteristics with ARBITRARY ids in any order (and representative interleaved concrete sets) the PUT payloads concatenate to exactly one aid/iid/ev entry per characteristic, one accessory id per PUT; event_received hands a JSON body to the pairing exactly once and ignores empty / non-UTF-8 / non-JSON bodies without raising (defect repaired: non-UTF-8 body).",
+  note="Listener and subscription SETS are small representative sets (code parametric in the elements); listeners must not mutate the listener set during dispatch (precondition). Exactly-once and order per EVENT message rest on the C08 dispatch contract. A JSON event body that is not an object is outside the contract.",
+  ref="4/C12"),
  "C15": dict(
   text="TLV.encode_list is proved equal to the canonical TLV8 spec function for every item list (loop invariants, all lengths) and to raise ValueError only for an invalid type/non-empty separator; TLV.decode_bytearray/decode_bytes are proved total (only TlvParseException escapes, exactly on malformed input), equal to the recursive decoding spec incl. merge and 'expected' filter, and to leave the argument unchanged.",
   note="Trusted: pyvc's encoding of Python semantics (DESIGN 2.3), cvc5/z3, models of bytearray/list/struct builtins (DESIGN 3.1). The round-trip lemma dec(enc(L)) = L over the two spec functions and BLE fragment reassembly are not yet discharged.",
